@@ -223,6 +223,36 @@ func runC11(e *Engine, r *Report, tier string) {
 			}
 		}
 		r.Check(okSuf, "R2", key+" sufficiency", e.InstrPos(subStore), "sender shares >= amount (else error) dominates the subtraction", "shares are subtracted without a dominating check that the sender owns that many")
+		// the amount comes from call data (a uint256 scaled by 10^18): pricing it (TokensFromShares* multiplies LegacyDecs
+		// and panics beyond 315 bits) is allowed only once the sufficiency test has bounded it by the sender's own shares
+		allCalls(fn, func(c ssa.CallInstruction) {
+			n := callName(c)
+			if !strings.HasPrefix(n, "TokensFromShares") && n != "MulInt" && n != "MulTruncate" && n != "Mul" {
+				return
+			}
+			uses := false
+			for _, a := range callArgs(c) {
+				if SameExpr(a, subAmt, 6) {
+					uses = true
+				}
+			}
+			if !uses {
+				return
+			}
+			bounded := false
+			for _, g := range GuardsOf(c) {
+				rel, ok := RelOf(g)
+				if !ok {
+					continue
+				}
+				isAmt := func(v ssa.Value) bool { return SameExpr(v, subAmt, 6) }
+				notAmt := func(v ssa.Value) bool { return !SameExpr(v, subAmt, 6) }
+				if rel.Says(">=", notAmt, isAmt) && BranchFailsClean(g.If, !g.Pol, nil) {
+					bounded = true
+				}
+			}
+			r.Check(bounded, "R2", key+" "+n+" bounded", e.InstrPos(c), "the transferred amount is priced only after it was bounded by the sender's shares", "the transferred amount — an arbitrary 256-bit number from call data — is multiplied ("+n+") before the test that bounds it by the sender's shares: LegacyDec multiplication panics on overflow, so an extreme amount panics inside the precompile instead of being refused")
+		})
 	}
 
 	// R3
